@@ -503,7 +503,7 @@ EXTRA5 = {
   technique="; the migration controller as Fetcher user under signer lag (Integrate separate from AddSequenced; ghost subm and invariant NoRepeat over every signer schedule, MigrillianLag.cfg; refutation instance MigrillianRewind.cfg; sleeping-signer simulation replayed on the real Controller; lag scenarios traced, RewindRange / NoRepeat by name)",
   note=" 'Without gaps or repeats' across continuous rounds = PosCovered + NoRepeat per run of Controller.Run; named clause RunStartsFromRoot."),
  "C20": dict(
-  technique="; signer lag: ghost subm and invariant NoRepeat over every signer schedule (MigrillianLag.cfg, thorough MigrillianLagFull.cfg), refutation instance MigrillianRewind.cfg, sleeping-signer scenarios replayed and traced",
+  technique="; signer lag: ghost subm and invariant NoRepeat over every signer schedule (MigrillianLag.cfg, thorough MigrillianLagFull.cfg), refutation instance MigrillianRewind.cfg, sleeping-signer scenarios replayed and traced; configuration SET dimension (MigrillianConfig.tla, 9395 sets of 1..3 migrations over tree ID x deprecated backend name x source URI x the single-config rules; NoConflictingFeeds, OneTreeOneMigration, SaneAccepted, UsableAccepted; refutation instance Key <- KeyWithBackend) replayed into core.ValidateConfig as a value and through core.LoadConfigFromFile as text and binary files",
   note=" Named clause RunStartsFromRoot (a new run may re-submit what is not yet integrated)."),
  "C18": dict(
   technique="; API-variant dimension of the log-list filter (MCLogFilter.tla: TemporallyCompatible, Compatible, RootCompatible alone and composed in both orders x root nil / CA / not CA x roots knowledge none / accepts / rejects x certificate nil / NotAfter at every tick; VariantIsWindow, VariantsAgree): 2653 lists x 75 calls exported by TLC, replayed on lists built directly in two operator layouts and parsed from JSON, roots collection nil / empty / padded, in every frame",
@@ -522,6 +522,9 @@ EXTRA5 = {
   note=" Page lengths 1..270 (thorough 530) by classes, not every length; alignment modelled for the default flag value."),
  "C07": dict(
   technique="; every shape is also read through client.LogClient.GetEntries (the second observation point of the decoding clause); reads over external storage whose request context ends inside the k-th chain lookup are refused or served whole"),
+ "C12": dict(
+  technique="; the deployment of the shards as a configuration dimension of TemporalClient.tla (per shard: base URI / frontend and configured key - shared URI with different keys, equal keys, no key; 8 deployments, 3-4 in the quick tier): OnlyVerifiedSCT is stated against the key configured for the routed shard, RoutedToOneShard against its frontend; every case replayed into client.NewTemporalLogClient built from the same assignment, the returned SCT re-verified under that shard's key",
+  note=" Named clauses SharedFrontend, UnkeyedShard (a shard without a key is not judged on signed data)."),
 }
 for _pid, _e in EXTRA5.items():
     EXTRA4.setdefault(_pid, {})
